@@ -459,7 +459,91 @@ def check_constraints(report, pm: PyModel):
                  "sample profile assumes request.flattenable is always False")
 
 
+MUTATORS = {"add", "update", "append", "extend", "discard", "remove", "clear", "pop", "insert", "setdefault", "popitem",
+            "difference_update", "intersection_update", "symmetric_difference_update", "sort", "reverse"}
+
+
+def check_with_context_pure(report, pm: PyModel):
+    r = report.rule("C01.6b", "with_context never mutates its arguments (collisions / visited_messages are shared by the whole "
+                              "traversal: an in-place update changes which sibling references get re-bound)", floor=8)
+    for ci in pm.classes.values():
+        if ci.module.name not in WRAPPER_MODULES or "with_context" not in ci.members:
+            continue
+        fn = ci.members["with_context"].node
+        params = {a.arg for a in fn.args.args + fn.args.kwonlyargs if a.arg != "self"}
+        r.instance(f"{ci.name}.with_context({', '.join(sorted(params))})")
+        for n in ast.walk(fn):
+            if isinstance(n, ast.Call) and isinstance(n.func, ast.Attribute) and isinstance(n.func.value, ast.Name) \
+                    and n.func.value.id in params and n.func.attr in MUTATORS:
+                r.violation(ci.module.path, n.lineno, f"{ci.name}.with_context: {ast.unparse(n)[:80]}",
+                            f"with_context mutates its argument '{n.func.value.id}' in place; the set is shared with the caller's "
+                            f"traversal, so messages visited in one branch are wrongly skipped in sibling branches")
+            if isinstance(n, ast.AugAssign) and isinstance(n.target, ast.Name) and n.target.id in params \
+                    and isinstance(n.op, (ast.BitOr, ast.BitAnd, ast.Sub, ast.BitXor)):
+                r.violation(ci.module.path, n.lineno, f"{ci.name}.with_context: {ast.unparse(n)[:80]}",
+                            f"augmented assignment updates the caller's '{n.target.id}' set in place")
+        r.ok()
+
+
+def check_import_closure(report, pm: PyModel):
+    from ..pymodel import pmatch, find_match
+    r = report.rule("C01.8", "the collections that feed emitted import lines range over every type the templates reference "
+                             "(python_modules / field_types / recursive_field_types / _ref_types are exhaustive)", floor=6)
+    pr = pm.func("gapic.schema.api.Proto.python_modules")
+    node, b = find_match("{_T_.ident.python_import for _M_ in self.all_messages.values() for _T_ in _M_.field_types "
+                         "if _T_.ident.python_import != _SR_}", pr.node)
+    r.instance("Proto.python_modules")
+    r.check(node is not None, pr.module.path, pr.node.lineno, "Proto.python_modules comprehension",
+            "imports of a types module must be collected from every message (nested and map entries included: all_messages) and every "
+            "one of its field types, excluding only the module's own import; an extra filter drops imports the emitted fields still reference")
+    ft = pm.func("gapic.schema.wrappers.MessageType.field_types")
+    node, b = find_match("tuple((_F_.type for _F_ in self.fields.values() if _F_.message or _F_.enum))", ft.node)
+    r.instance("MessageType.field_types")
+    r.check(node is not None, ft.module.path, ft.node.lineno, "MessageType.field_types",
+            "field_types must be the type of every field that is a message or an enum")
+    rf = pm.func("gapic.schema.wrappers.MessageType.recursive_field_types")
+    src = ast.unparse(rf.node)
+    r.instance("MessageType.recursive_field_types")
+    adds = [n for n in ast.walk(rf.node) if isinstance(n, ast.If) and pmatch("not _F_.is_primitive", n.test) is not None
+            and any(isinstance(x, ast.Expr) and pmatch("_TS_.add(_F_.type)", x.value) is not None for x in n.body)]
+    desc = [n for n in ast.walk(rf.node) if isinstance(n, ast.If) and pmatch("_F_.message and _F_.type not in _TS_", n.test) is not None]
+    r.check(len(adds) == 1 and len(desc) == 1, rf.module.path, rf.node.lineno, "recursive_field_types traversal",
+            "every non-primitive field type must be added and every unseen message descended into")
+    # _ref_types
+    rt = pm.func("gapic.schema.wrappers.Method._ref_types")
+    want = {  # expression appended/extended -> required enclosing condition (None = unconditional)
+        "self.client_output": "not self.void", "self.client_output.field_types": "not self.void",
+        "self.client_output_async": "not self.void", "self.client_output_async.field_types": "not self.void",
+        "self.lro.response_type": "self.lro", "self.lro.metadata_type": "self.lro",
+        "self.extended_lro.request_type": "self.extended_lro", "self.extended_lro.operation_type": "self.extended_lro",
+        "self.paged_result_field.message": "self.paged_result_field and self.paged_result_field.message",
+    }
+    found = {}
+
+    def visit(body, cond):
+        for st in body:
+            if isinstance(st, ast.If):
+                visit(st.body, ast.unparse(st.test))
+                visit(st.orelse, None)
+            elif isinstance(st, ast.Expr) and isinstance(st.value, ast.Call) and isinstance(st.value.func, ast.Attribute) \
+                    and st.value.func.attr in ("append", "extend") and st.value.args:
+                found[ast.unparse(st.value.args[0])] = cond
+    visit(rt.node.body, None)
+    for expr, cond in want.items():
+        r.instance(f"_ref_types includes {expr}")
+        r.check(expr in found and found[expr] == cond, rt.module.path, rt.node.lineno, f"_ref_types: {expr} under {found.get(expr, '<absent>')}",
+                f"_ref_types must include {expr} whenever `{cond}`; otherwise the client modules reference a type they do not import")
+    init = [n for n in ast.walk(rt.node) if isinstance(n, (ast.Assign, ast.AnnAssign)) and isinstance(n.value, ast.List)
+            and [ast.unparse(e) for e in n.value.elts] == ["self.input"]]
+    r.check(len(init) == 1, rt.module.path, rt.node.lineno, "_ref_types starts with [self.input]", "the request type must always be imported")
+    node, _ = find_match("self.input.recursive_field_types if _R_ else (_F_.type for _F_ in self.flattened_fields.values() if _F_.message or _F_.enum)", rt.node)
+    r.check(node is not None, rt.module.path, rt.node.lineno, "_ref_types field types",
+            "flattened parameter types (or all recursive field types) must be included")
+
+
 def run(report, pm: PyModel):
+    check_with_context_pure(report, pm)
+    check_import_closure(report, pm)
     check_module_graph(report, pm)
     check_with_context(report, pm)
     check_json(report, pm)
